@@ -1,7 +1,10 @@
 package main
 
 import (
+	"strings"
+
 	"verifharness/internal/report"
+	"verifharness/internal/rng"
 	"verifharness/internal/routing"
 )
 
@@ -23,5 +26,113 @@ func init() {
 			{Name: "curly", Opts: routing.FullOpts("curly"), NCfg: n, PerCfg: 20},
 			{Name: "jsr", Opts: routing.FullOpts("jsr"), NCfg: n, PerCfg: 20},
 		})
+	}
+}
+
+func routingMeta(run *report.Run) {
+	run.Trusted = []string{"Go regexp modelled by a derivative matcher (CurlyRouter) and by the closed form of DESIGN 4.2 (RouterJSR311)", "sort.Sort is insertion sort for n ≤ 12"}
+	run.Assumptions = []string{"templates inside the grammar of the quantifier (checked per table by the driver: Config.wfTemplates)", "If-conditions are pure functions of the request"}
+}
+
+func init() {
+	checks["C04"] = func(run *report.Run) error {
+		run.Rule = "same generator as C01; a case is non-trivial when some WebService root matched the URL; the projection compared is the parameter map of the invoked route (root and route variables, regex variables, suffix tokens, tail wildcard with 0–3 segments, custom verbs)"
+		routingMeta(run)
+		n := sizes(run, 150, 3000)
+		p := routing.PropSpec{ID: "C04", SpecKey: "C04", Proj: routing.ProjParams, NeedWF: true}
+		return routing.CheckStreams(run, p, []routing.StreamSpec{
+			{Name: "curly", Opts: routing.FullOpts("curly"), NCfg: n, PerCfg: 20},
+			{Name: "jsr", Opts: routing.FullOpts("jsr"), NCfg: n, PerCfg: 20},
+		})
+	}
+
+	checks["C14"] = func(run *report.Run) error {
+		run.Rule = "every generated request whose path has a non-empty segment and does not end in '/' is dispatched as p and as p/ on the same container; the two real outcomes must be the same (Spec.sameOutcomeB: status, route, parameters, Allow set) and each must equal the model's; distinct = distinct (table, request) pairs whose root matched"
+		routingMeta(run)
+		n := sizes(run, 150, 3000)
+		slash := func(r *rng.R, cfg routing.Config, reqs []routing.Req) []routing.Variant {
+			v := routing.Variant{Name: "slash", Cfg: cfg, Reqs: make([]*routing.Req, len(reqs))}
+			for i, rq := range reqs {
+				if strings.Trim(rq.Path, "/") != "" && !strings.HasSuffix(rq.Path, "/") {
+					r2 := rq
+					r2.Path += "/"
+					v.Reqs[i] = &r2
+				}
+			}
+			return []routing.Variant{v}
+		}
+		pairs, err := routing.RunVariants(run.Seed*7919+1, n, 20, routing.FullOpts("curly"), slash)
+		if err != nil {
+			return err
+		}
+		routing.CheckPairs(run, routing.PairSpec{ID: "C14"}, "curly", pairs)
+		if routing.WitnessF19() {
+			run.KnownHits["F19"]++
+		}
+		jo := routing.FullOpts("jsr")
+		jo.AllowWild = false
+		pairs, err = routing.RunVariants(run.Seed*7919+2, n, 20, jo, slash)
+		if err != nil {
+			return err
+		}
+		routing.CheckPairs(run, routing.PairSpec{ID: "C14",
+			Applies: func(p *routing.PairCase) bool { return p.Class["jsrHasWildcard"] == "0" },
+			Known: func(p *routing.PairCase) string {
+				if p.Class["jsrSlashSafe"] == "0" {
+					return "F19"
+				}
+				return ""
+			}}, "jsr", pairs)
+		run.Extra["skipped_tables_F11"] = routing.SkippedBuild
+		return nil
+	}
+
+	checks["C03"] = func(run *report.Run) error {
+		run.Rule = "every generated table is built in the generated order and in k random permutations of its WebServices and of each service's routes (k = 3 quick, 8 thorough); every request is dispatched on all of them; inside the property's quantifier (same-method routes have different paths, no two roots of the same literal/variable shape) all real outcomes must be the same and each must equal the model's; distinct = distinct (table, permutation, request) whose root matched"
+		routingMeta(run)
+		n := sizes(run, 100, 2000)
+		k := 3
+		if run.Tier == "thorough" {
+			k = 8
+		}
+		perms := func(r *rng.R, cfg routing.Config, reqs []routing.Req) []routing.Variant {
+			var vs []routing.Variant
+			for j := 0; j < k; j++ {
+				v := routing.Variant{Name: "perm", Cfg: routing.Permute(r, cfg), Reqs: make([]*routing.Req, len(reqs))}
+				for i := range reqs {
+					rq := reqs[i]
+					v.Reqs[i] = &rq
+				}
+				vs = append(vs, v)
+			}
+			return vs
+		}
+		pairs, err := routing.RunVariants(run.Seed*104729+1, n, 15, routing.FullOpts("curly"), perms)
+		if err != nil {
+			return err
+		}
+		routing.CheckPairs(run, routing.PairSpec{ID: "C03",
+			Applies: func(p *routing.PairCase) bool {
+				return p.Class["distinctMethodPath"] == "1" && p.Class["sameShapeRoots"] == "0"
+			},
+			Known: func(p *routing.PairCase) string {
+				if p.Class["scoresSeparate"] == "0" {
+					return "F05"
+				}
+				return ""
+			}}, "curly", pairs)
+		if routing.WitnessF05() {
+			run.KnownHits["F05"]++
+		}
+		jo := routing.FullOpts("jsr")
+		jo.RootVars, jo.RootRe = false, false
+		pairs, err = routing.RunVariants(run.Seed*104729+2, n, 15, jo, perms)
+		if err != nil {
+			return err
+		}
+		routing.CheckPairs(run, routing.PairSpec{ID: "C03",
+			Applies: func(p *routing.PairCase) bool { return p.Class["distinctMethodPath"] == "1" }}, "jsr-literal-roots", pairs)
+		run.Extra["skipped_tables_F11"] = routing.SkippedBuild
+		return nil
 	}
 }
